@@ -555,6 +555,17 @@ theorem listener_silent_on_responses (b0 b1 b2 b3 q0 q1 a0 a1 n0 n1 r0 r1 : Nat)
   unfold listenerHeaderStep
   simp [(accept_verdicts (b2 * 256 + b3) (q0 * 256 + q1) (a0 * 256 + a1) (n0 * 256 + n1) (r0 * 256 + r1)).1 hqr]
 
+/-- **An accepted header over an undecodable body gets the bare FORMERR**,
+echoing ID and opcode (Notify included), from either engine. -/
+theorem listener_undecodable_formerr (pkt : List Nat) (h : listenerHeaderStep pkt = none) :
+    listenerStep pkt false =
+      some (some (rejectBytes (pkt.getD 0 0) (pkt.getD 1 0) (pkt.getD 2 0) .formerr)) ∧
+    (rejectBytes (pkt.getD 0 0) (pkt.getD 1 0) (pkt.getD 2 0) .formerr).getD 3 0 = rcodeFormErr ∧
+    (rejectBytes (pkt.getD 0 0) (pkt.getD 1 0) (pkt.getD 2 0) .formerr).getD 2 0 / 8 % 16 = pkt.getD 2 0 / 8 % 16 := by
+  refine ⟨by simp [listenerStep, h], by simp [rejectBytes], ?_⟩
+  simp only [rejectBytes, List.getD_cons_succ, List.getD_cons_zero]
+  omega
+
 /-- **Non-query opcodes reaching the edns handler (Notify) get the bare NOTIMP.** -/
 theorem nonquery_gets_notimp (L Lu : Msg → Nat) (c : Consts) (cfg : Cfg) (proto : Proto) (q : Query)
     (next : Query → Option Msg) (hop : q.opcode > 0) :
@@ -637,9 +648,340 @@ example : (serveDNS (msgLen true) (msgLen false) {} { ecs := true } .tcp
     (fun _ => none)).map (fun r => (r.rcode, r.extra)) = some (16, [.opt { udp := 1232 } true]) := by
   decide
 
+-- a NOTIFY whose body does not decode: FORMERR with opcode 4 echoed
+example : listenerStep [0x12, 0x34, 0x20, 0, 0, 1, 0, 0, 0, 0, 0, 0, 0xff] false =
+    some (some [0x12, 0x34, 0xa0, 1, 0, 0, 0, 0, 0, 0, 0, 0]) := by decide
+
 -- header admission: a response, an IQUERY, a Notify, two questions, a good query
 example : acceptHeader 0x8100 1 0 0 0 = .ignore ∧ acceptHeader 0x0800 1 0 0 0 = .notimp ∧
     acceptHeader 0x2000 1 0 0 0 = .ok ∧ acceptHeader 0x0100 2 0 0 0 = .formerr ∧
     acceptHeader 0x0100 1 0 0 1 = .ok := by decide
+
+/-! ### the recovery panic path -/
+
+/-- **A downstream panic is answered within what the client sent.** The
+SERVFAIL the recovery middleware writes (through the base writer, from the
+request edns hands back) echoes the query, carries no OPT for a client that
+sent none, and for an EDNS client one OPT without any option — the forwarded
+client subnet included — with empty sections and AD clear. -/
+theorem panic_reply (L Lu : Msg → Nat) (c : Consts) (cfg : Cfg) (proto : Proto) (q : Query) (wb : Bool)
+    (next : Query → Outcome) (hop : q.opcode = 0) (hv : ∀ o, q.opt = some o → o.version = 0)
+    (hp : next (normalised q (setEdns0 c cfg.ecs q.opt)) = .panic) :
+    ∃ r, serveGuarded L Lu c cfg proto q wb next = some r ∧ Echoes q r ∧ r.rcode = rcodeServFail ∧
+      r.answer = [] ∧ r.ns = [] ∧ r.fl.ad = false ∧
+      (q.opt = none → r.extra = []) ∧
+      (∀ o own, RR.opt o own ∈ r.extra → o.options = [] ∧ q.opt ≠ none) := by
+  have hv0 : (setEdns0 c cfg.ecs q.opt).opt.version = 0 := by
+    cases h : q.opt with
+    | none => rfl
+    | some o => simp [setEdns0, hv o h]
+  unfold serveGuarded
+  simp only [hop, Nat.lt_irrefl, if_false, hv0, ne_eq, not_true_eq_false, hp]
+  refine ⟨_, rfl, ?_, rfl, rfl, rfl, rfl, ?_, ?_⟩
+  · unfold Echoes cancelWithRcode restoreClientView normalised
+    cases q.opt.isNone <;> simp
+  · intro hq
+    simp [cancelWithRcode, restoreClientView, normalised, hq]
+  · intro o own ho
+    cases hq : q.opt with
+    | none => simp [cancelWithRcode, restoreClientView, normalised, hq] at ho
+    | some qo =>
+      simp only [cancelWithRcode, restoreClientView, normalised, hq, Option.isNone_some, Bool.false_eq_true,
+        if_false, Option.map_some, List.mem_singleton, RR.opt.injEq] at ho
+      obtain ⟨rfl, _⟩ := ho
+      refine ⟨?_, by simp⟩
+      simp only
+      have := set0_options_ecs c cfg.ecs (some qo)
+      rw [hq] at *
+      exact stripECS_of_all_ecs _ this
+
+/-- when the rest of the chain returns, the guarded handler is `EDNS.ServeDNS` / `serveWire`. -/
+theorem serveGuarded_done (L Lu : Msg → Nat) (c : Consts) (cfg : Cfg) (proto : Proto) (q : Query)
+    (next : Query → Option Msg) :
+    serveGuarded L Lu c cfg proto q false (fun x => .done (next x)) = serveDNS L Lu c cfg proto q next := by
+  unfold serveGuarded serveDNS
+  simp
+
+/-! ### the byte path (`WireReady` / `WriteWire`): the same rules on bytes -/
+
+/-- the body reaches the client unchanged but for AD and the appended OPT. -/
+theorem writeWire_header (L : Msg → Nat) (cfg : Cfg) (w : Writer) (body r : Msg) (info : WireInfo)
+    (h : writeWire L cfg w body info = some r) :
+    r.id = body.id ∧ r.opcode = body.opcode ∧ r.fl.qr = body.fl.qr ∧ r.question = body.question ∧
+    r.rcode = body.rcode ∧ r.answer = body.answer ∧ r.ns = body.ns := by
+  obtain ⟨a1, a2, a3, a4, a5, a6, a7, _⟩ := wireBody_frame w body info
+  rcases (writeWire_some L cfg w body r info h).2.1 with ⟨_, rfl⟩ | ⟨_, rfl⟩
+  · exact ⟨a1, a2, a3, a4, a5, a6, a7⟩
+  · exact ⟨a1, a2, a3, a4, a5, a6, a7⟩
+
+/-- **No OPT unless asked, on bytes**: a body that carries none (the cache
+strips it at admission) reaches a non-EDNS client without one. -/
+theorem writeWire_no_opt (L : Msg → Nat) (cfg : Cfg) (proto : Proto) (q : Query) (w : Writer)
+    (hw : WriterFor cfg proto q w) (body r : Msg) (info : WireInfo) (hq : q.opt = none)
+    (hb : ∀ rr ∈ body.extra, rr.isOpt = false) (h : writeWire L cfg w body info = some r) :
+    ∀ rr ∈ r.extra, rr.isOpt = false := by
+  have hne : w.noedns = true := by rw [hw.noedns_eq, hq]; rfl
+  rcases (writeWire_some L cfg w body r info h).2.1 with ⟨_, rfl⟩ | ⟨hf, _⟩
+  · rw [(wireBody_frame w body info).2.2.2.2.2.2.2]; exact hb
+  · rw [hne] at hf; cases hf
+
+/-- **Options on bytes**: the appended OPT holds the server cookie for the
+client cookie sent, the configured NSID when asked, the keepalive when asked
+over TCP, and the entry's extended error — nothing else. -/
+theorem writeWire_options (L : Msg → Nat) (cfg : Cfg) (proto : Proto) (q : Query) (w : Writer)
+    (hw : WriterFor cfg proto q w) (body r : Msg) (info : WireInfo)
+    (hb : ∀ rr ∈ body.extra, rr.isOpt = false)
+    (hede : ∀ e, info.ede = some e → ∃ d, e = .raw codeEDE d)
+    (h : writeWire L cfg w body info = some r) :
+    ∀ o own, RR.opt o own ∈ r.extra → ∀ x ∈ o.options,
+      Allowed cfg proto q (match info.ede with | some e => [e] | none => []) x := by
+  intro o own ho x hx
+  have hex := (wireBody_frame w body info).2.2.2.2.2.2.2
+  have hnob : RR.opt o own ∈ body.extra → False := by
+    intro hin
+    have := hb _ hin
+    simp [RR.isOpt] at this
+  rcases (writeWire_some L cfg w body r info h).2.1 with ⟨_, rfl⟩ | ⟨_, rfl⟩
+  · rw [hex] at ho; exact (hnob ho).elim
+  · simp only [withWireOPT, hex, List.mem_append, List.mem_singleton, RR.opt.injEq] at ho
+    rcases ho with ho | ⟨rfl, _⟩
+    · exact (hnob ho).elim
+    · simp only [wireOPT, List.mem_append] at hx
+      rcases hx with ((hx | hx) | hx) | hx
+      · unfold cookieOpts at hx
+        cases hc : w.cookie with
+        | none => rw [hc] at hx; simp at hx
+        | some ck =>
+          rw [hc] at hx
+          simp only [List.mem_singleton] at hx
+          exact Or.inl ⟨ck, hx, by rw [← hw.cookie_eq, hc]⟩
+      · unfold nsidOpts at hx
+        split at hx
+        · rename_i hn
+          simp only [List.mem_singleton] at hx
+          exact Or.inr (Or.inl ⟨hx, hn.1, hw.nsid_imp hn.2⟩)
+        · simp at hx
+      · unfold keepaliveOpts at hx
+        split at hx
+        · rename_i hk
+          simp only [List.mem_singleton] at hx
+          exact Or.inr (Or.inr (Or.inl ⟨hx, hw.ka_imp hk⟩))
+        · simp at hx
+      · cases he : info.ede with
+        | none => rw [he] at hx; simp at hx
+        | some e =>
+          rw [he] at hx
+          simp only [List.mem_singleton] at hx
+          obtain ⟨d, hd⟩ := hede e he
+          exact Or.inr (Or.inr (Or.inr ⟨d, by rw [hx, hd], by rw [hx]; simp⟩))
+
+/-- **AD discipline on bytes** (given `info.ad` mirrors the body's AD bit — the `WireInfo` contract). -/
+theorem writeWire_ad (L : Msg → Nat) (cfg : Cfg) (proto : Proto) (q : Query) (w : Writer)
+    (hw : WriterFor cfg proto q w) (body r : Msg) (info : WireInfo) (hi : info.ad = body.fl.ad)
+    (hcl : q.cd = true ∨ (q.clientDO = false ∧ q.ad = false))
+    (h : writeWire L cfg w body info = some r) : r.fl.ad = false := by
+  have hna : w.noad = true := by
+    rw [hw.noad_eq]
+    rcases hcl with h | ⟨h1, h2⟩
+    · simp [h]
+    · simp [h1, h2]
+  have key : (wireBody w body info).fl.ad = false := by
+    unfold wireBody
+    rw [hna, hi]
+    cases hb : body.fl.ad <;> simp [hb]
+  rcases (writeWire_some L cfg w body r info h).2.1 with ⟨_, rfl⟩ | ⟨_, rfl⟩
+  · exact key
+  · exact key
+
+/-- **DNSSEC on bytes**: a DO=0 client is never sent a body flagged as carrying
+DNSSEC records (the writer falls back to the message path, which strips). -/
+theorem writeWire_dnssec_fallback (L : Msg → Nat) (cfg : Cfg) (proto : Proto) (q : Query) (w : Writer)
+    (hw : WriterFor cfg proto q w) (body : Msg) (info : WireInfo)
+    (hdo : q.clientDO = false) (hf : info.hasDnssec = true) : writeWire L cfg w body info = none := by
+  have : w.do_ = false := by rw [hw.do_eq]; exact hdo
+  simp [writeWire, this, hf]
+
+/-- **UDP size on bytes**: what is written fits the property's bound — an
+overflow is never written, it falls back (and the message path truncates). -/
+theorem writeWire_udp_bound (L : Msg → Nat) (cfg : Cfg) (q : Query) (w : Writer)
+    (hw : WriterFor cfg .udp q w) (body r : Msg) (info : WireInfo)
+    (h : writeWire L cfg w body info = some r) : L r ≤ udpLimit q :=
+  Nat.le_trans ((writeWire_some L cfg w body r info h).2.2 hw.proto_eq) (hw.size_udp rfl)
+
+/-- **The cache's side of the contract** (`prepareWireServe`, `wireBodyFor`,
+`wireInfoFor`): whatever body the cache hands the byte path, if it is NOT
+flagged `hasDnssec` and the question is not RRSIG, a DO=0 client's body holds
+no RRSIG / NSEC / NSEC3 in answer or authority — signed or not. -/
+theorem cacheWire_dnssec_contract (m : Msg) (e : WEntry) (q : Query) (b : Msg) (info : WireInfo)
+    (he : newWEntry m = some e) (h : serveWireInto e q false = some (b, info))
+    (ht : storedQtype e.stored ≠ typeRRSIG) (hf : info.hasDnssec = false) :
+    ∀ rr ∈ b.answer ++ b.ns, rr.isDnssec = false := by
+  unfold newWEntry at he
+  cases hn : newCacheEntry m with
+  | none => rw [hn] at he; cases he
+  | some ce =>
+    rw [hn] at he
+    simp only [Option.some.injEq] at he
+    subst he
+    have hq : (storedQtype ce.msg == typeRRSIG) = false := by simpa using ht
+    have hq' : (storedQtype ce.msg != typeRRSIG) = true := by simp [bne, hq]
+    unfold serveWireInto wireBodyFor at h
+    simp only [Bool.false_or, hq, Bool.or_false, hq', Bool.and_true] at h
+    cases hany : (ce.msg.answer ++ ce.msg.ns).any RR.isDnssec with
+    | false =>
+      simp only [hany, Bool.not_false, if_true, Option.some.injEq, Prod.mk.injEq] at h
+      obtain ⟨rfl, _⟩ := h
+      intro rr hrr
+      simp only at hrr
+      cases hd : rr.isDnssec with
+      | false => rfl
+      | true => exact absurd (List.any_eq_true.mpr ⟨rr, hrr, hd⟩) (by simp [hany])
+    | true =>
+      simp only [hany, Bool.not_true, Bool.false_eq_true, if_false, if_true, Option.map_some,
+        Option.some.injEq, Prod.mk.injEq] at h
+      obtain ⟨rfl, _⟩ := h
+      intro rr hrr
+      simp only at hrr
+      unfold clearDNSSEC at hrr
+      have hqt : ∀ qq, ce.msg.question = some qq → (qq.qtype == typeRRSIG) = false := by
+        intro qq hqq
+        unfold storedQtype at hq
+        rw [hqq] at hq
+        exact hq
+      split at hrr
+      · rename_i qq hqq
+        simp only [hqt qq hqq, Bool.false_eq_true, if_false, List.mem_append, List.mem_filter,
+          Bool.not_eq_eq_eq_not, Bool.not_true] at hrr
+        rcases hrr with h1 | h1 <;> exact h1.2
+      · simp only [List.mem_append, List.mem_filter, Bool.not_eq_eq_eq_not, Bool.not_true] at hrr
+        rcases hrr with h1 | h1 <;> exact h1.2
+
+/-- the cache's byte body echoes the query (`wire.ApplyReply` + question spelling) and never asserts AD to a CD client. -/
+theorem cacheWire_echoes (e : WEntry) (q : Query) (d : Bool) (b : Msg) (info : WireInfo)
+    (h : serveWireInto e q d = some (b, info)) : Echoes q b ∧ info.ad = b.fl.ad ∧ (q.cd = true → b.fl.ad = false) := by
+  unfold serveWireInto at h
+  split at h
+  · cases h
+  · simp only [Option.some.injEq, Prod.mk.injEq] at h
+    obtain ⟨rfl, rfl⟩ := h
+    refine ⟨⟨rfl, rfl, rfl, rfl⟩, rfl, ?_⟩
+    intro hcd
+    simp [hcd]
+
+/-- **A cache hit on the byte path respects DO=0**, end to end in the model:
+either nothing is written (fallback to the message path) or what is written
+holds no RRSIG / NSEC / NSEC3 in answer or authority. -/
+theorem cache_hit_bytes_no_dnssec (L : Msg → Nat) (cfg : Cfg) (proto : Proto) (q : Query) (w : Writer)
+    (hw : WriterFor cfg proto q w) (m : Msg) (e : WEntry) (b : Msg) (info : WireInfo)
+    (he : newWEntry m = some e) (hdo : q.clientDO = false) (ht : storedQtype e.stored ≠ typeRRSIG)
+    (hs : serveWireInto e q false = some (b, info)) (r : Msg) (h : writeWire L cfg w b info = some r) :
+    ∀ rr ∈ r.answer ++ r.ns, rr.isDnssec = false := by
+  cases hf : info.hasDnssec with
+  | true => rw [writeWire_dnssec_fallback L cfg proto q w hw b info hdo hf] at h; cases h
+  | false =>
+    obtain ⟨_, _, _, _, _, ha, hn⟩ := writeWire_header L cfg w b r info h
+    rw [ha, hn]
+    exact cacheWire_dnssec_contract m e q b info he hs ht hf
+
+/-! ### `Request.ParseWire`: what may enter the chain undecoded -/
+
+/-- **Only plain queries are served without decoding**: a packet `ParseWire`
+admits is a non-response QUERY with exactly one question, empty answer and
+authority, at most one additional record, and every option of its OPT passed
+the per-option checks; in particular a client-subnet option has a known family
+and SOURCE and SCOPE prefix lengths within that family's maximum. -/
+theorem parseWire_admits_only (raw : List Nat) (f : WireFacts) (h : parseWire raw = some f) :
+    raw.length ≥ 12 ∧ flagQR (be16 raw 2) = false ∧ flagOpcode (be16 raw 2) = 0 ∧
+    be16 raw 4 = 1 ∧ be16 raw 6 = 0 ∧ be16 raw 8 = 0 ∧ be16 raw 10 ≤ 1 ∧
+    (∀ o ∈ f.options, wireOptionOk o.1 o.2 = true) ∧ (f.options.filter (fun o => o.1 == codeCookie)).length ≤ 1 := by
+  unfold parseWire at h
+  split at h
+  · cases h
+  · rename_i hlen
+    simp only at h
+    split at h
+    · cases h
+    · rename_i hfl
+      split at h
+      · cases h
+      · rename_i hcnt
+        have hbase : raw.length ≥ 12 ∧ flagQR (be16 raw 2) = false ∧ flagOpcode (be16 raw 2) = 0 ∧
+            be16 raw 4 = 1 ∧ be16 raw 6 = 0 ∧ be16 raw 8 = 0 ∧ be16 raw 10 ≤ 1 := by
+          refine ⟨by omega, ?_, ?_, ?_, ?_, ?_, ?_⟩
+          · cases hq : flagQR (be16 raw 2) with
+            | false => rfl
+            | true => exact absurd (Or.inr hq) hfl
+          · apply Classical.byContradiction; intro hn; exact hfl (Or.inl hn)
+          all_goals omega
+        split at h
+        · cases h
+        · split at h
+          · cases h
+          · split at h
+            · split at h
+              · cases h
+              · split at h
+                · cases h
+                · split at h
+                  · cases h
+                  · rename_i opts _
+                    split at h
+                    · rename_i hok
+                      simp only [Option.some.injEq] at h
+                      subst h
+                      simp only [Bool.and_eq_true, List.all_eq_true, decide_eq_true_eq] at hok
+                      obtain ⟨a1, a2, a3, a4, a5, a6, a7⟩ := hbase
+                      exact ⟨a1, a2, a3, a4, a5, a6, a7, hok.1, hok.2⟩
+                    · cases h
+            · split at h
+              · cases h
+              · simp only [Option.some.injEq] at h
+                subst h
+                obtain ⟨a1, a2, a3, a4, a5, a6, a7⟩ := hbase
+                exact ⟨a1, a2, a3, a4, a5, a6, a7, by simp, by simp⟩
+
+/-- what the client-subnet check means (`EDNS0_SUBNET.unpack`'s own conditions). -/
+theorem wireOptionOk_ecs (d : List Nat) (h : wireOptionOk codeECS d = true) :
+    d.length ≥ 4 ∧
+    ((d.getD 0 0 * 256 + d.getD 1 0 = 0 ∧ d.getD 2 0 = 0) ∨
+     (d.getD 0 0 * 256 + d.getD 1 0 = 1 ∧ d.getD 2 0 ≤ 32 ∧ d.getD 3 0 ≤ 32) ∨
+     (d.getD 0 0 * 256 + d.getD 1 0 = 2 ∧ d.getD 2 0 ≤ 128 ∧ d.getD 3 0 ≤ 128)) := by
+  unfold wireOptionOk at h
+  simp only [codeECS, codeCookie, codeNSID, Nat.reduceEqDiff, if_false, if_true, Bool.and_eq_true,
+    decide_eq_true_eq] at h
+  refine ⟨h.1, ?_⟩
+  have h2 := h.2
+  split at h2
+  · rename_i hf; left; exact ⟨hf, by simpa using h2⟩
+  · split at h2
+    · rename_i hf; right; left; exact ⟨hf, by simpa using h2⟩
+    · split at h2
+      · rename_i hf; right; right; exact ⟨hf, by simpa using h2⟩
+      · cases h2
+
+-- non-vacuity: a panic behind edns for a client without EDNS and with [ecs] on
+example : serveGuarded (msgLen true) (msgLen false) {} { ecs := true } .udp
+    { qDO0 with opt := none } false (fun _ => .panic) =
+      some { id := 7, rcode := 2, fl := { qr := true, rd := true, ra := true }, question := some qDO0.question } := by
+  decide
+example : (serveGuarded (msgLen true) (msgLen false) {} { ecs := true } .udp qDO0 true (fun _ => .panic)).map (·.extra) =
+    some [.opt { udp := 1232, doBit := false, options := [] } true] := by decide
+
+-- non-vacuity: an unsigned NSEC3 in the authority is stripped for DO=0 on the byte path, kept (and flagged) for DO=1
+private def nodata : Msg :=
+  { id := 1, fl := { qr := true, ra := true }, question := some qDO0.question,
+    ns := [.data .other 1 40 50, .data .nsec3 2 60 70] }
+example : (newWEntry nodata).bind (fun e => (serveWireInto e qDO0 false).map (fun p => (p.1.ns, p.2.hasDnssec))) =
+    some ([.data .other 1 40 50], false) := by decide
+example : (newWEntry nodata).bind (fun e => (serveWireInto e qDO0 true).map (fun p => (p.1.ns.length, p.2.hasDnssec))) =
+    some (2, true) := by decide
+-- and the byte writer appends cookie + NSID, refusing an oversize UDP reply
+example : (writeWire (fun _ => 100) { nsid := [110, 115] } (writerDecoded {} .udp qDO0 (setEdns0 {} false qDO0.opt))
+    { nodata with ns := [] } {}).map (fun r => r.extra) =
+    some [.opt { udp := 1232, options := [.srvCookie [1, 2, 3, 4, 5, 6, 7, 8], .srvNsid [110, 115]] } true] := by decide
+example : writeWire (fun _ => 5000) {} (writerDecoded {} .udp qDO0 (setEdns0 {} false qDO0.opt)) nodata {} = none := by decide
+-- ParseWire: a plain query with a well-formed subnet is admitted, a scope of 33 is not
+example : (parseWire [0,7, 1,0, 0,1, 0,0, 0,0, 0,1, 1,97,0, 0,1, 0,1, 0, 0,41, 4,208, 0,0,0,0, 0,11, 0,8, 0,7, 0,1,24,0, 1,2,3]).isSome = true := by decide
+example : parseWire [0,7, 1,0, 0,1, 0,0, 0,0, 0,1, 1,97,0, 0,1, 0,1, 0, 0,41, 4,208, 0,0,0,0, 0,11, 0,8, 0,7, 0,1,24,33, 1,2,3] = none := by decide
 
 end SdnsVerif.Props.C06
